@@ -13,8 +13,8 @@ def run(path, seed):
     from . import families
     f = families.REPLAY.get(fam)
     if f is None:
-        log("no replayer for family %s" % fam)
-        return 2
+        log("no single-scenario replayer for family %s: running the quick check of %s again" % (fam, pid))
+        f = families._rerun
     log("replaying %s (%s): %s" % (pid, rep["signature"], rep["what"][:300]))
     sigs = f(ctx, pid, rep["replay"])
     for s in sigs:
